@@ -64,6 +64,7 @@ type Run struct {
 	MapOrder  string // "", "nondet"
 	Quiet     bool
 	PoolDrain bool // sync.Pool.Get forks on "drained by GC"
+	LockDisc  bool // lock-discipline checking of structs guarded by a mutex field
 	PanicIsOK bool // uncaught panic at top level is not a violation (harness handles it)
 	MergeOff  bool
 	TimeLimit time.Duration
@@ -343,7 +344,7 @@ func (r *Run) runPath(sol *Solver, item workItem) (res *PathResult, pending []wo
 	ex := &Exec{
 		env: r.Env, tb: NewTermBuilder(), sol: sol, prefix: item.prefix, witness: item.witness,
 		known: map[int]bool{}, globals: map[*ssa.Global]*Val{}, initDone: map[*ssa.Package]bool{},
-		fuel: r.Fuel, onceDone: map[*Val]bool{}, pools: map[*Val][]Val{}, locks: map[*Val]int{}, run: r,
+		fuel: r.Fuel, onceDone: map[*Val]bool{}, pools: map[*Val][]Val{}, locks: map[*Val]int{}, lockDisc: r.LockDisc, run: r,
 		mergeOff: r.MergeOff, fnHits: map[*ssa.Function]int{},
 	}
 	if ex.witness == nil {
